@@ -72,3 +72,29 @@ package client
 //@   trusted
 //@   modifies nothing
 //@   ensures result1 == nil && instanceType != "" ==> result0 != nil && result0 == limitOfType(instanceType)
+
+//@ for C16
+
+//@ # ---- idempotency token store: per parameter hash a stack of put-back tokens ----
+//@ # the generator only ever stores []string values (its own Add calls)
+//@ func SimpleIdempotentKeyGenerator.GenerateKey
+//@   requires g != nil && g.cache != nil
+//@   requires lruHas(g.cache, paramHash) ==> lruIsStrs(g.cache, paramHash)
+//@   panics
+//@   # a put-back token is handed out again (last in, first out) and leaves the store with that very call
+//@   ensures old(lruHas(g.cache, paramHash)) && old(len(lruStrs(g.cache, paramHash))) > 0 ==> result == old(lruStrs(g.cache, paramHash)[len(lruStrs(g.cache, paramHash)) - 1])
+//@   ensures old(lruHas(g.cache, paramHash)) && old(len(lruStrs(g.cache, paramHash))) == 1 ==> !lruHas(g.cache, paramHash)
+//@   ensures old(lruHas(g.cache, paramHash)) && old(len(lruStrs(g.cache, paramHash))) > 1 ==> lruHas(g.cache, paramHash) && len(lruStrs(g.cache, paramHash)) == old(len(lruStrs(g.cache, paramHash))) - 1
+//@   ensures old(lruHas(g.cache, paramHash)) && old(len(lruStrs(g.cache, paramHash))) > 1 ==> forall i int :: 0 <= i && i < len(lruStrs(g.cache, paramHash)) ==> lruStrs(g.cache, paramHash)[i] == old(lruStrs(g.cache, paramHash)[i])
+//@   # without a stored token nothing is stored by this call
+//@   ensures !old(lruHas(g.cache, paramHash)) ==> !lruHas(g.cache, paramHash)
+
+//@ func SimpleIdempotentKeyGenerator.PutBack
+//@   requires g != nil && g.cache != nil
+//@   requires lruHas(g.cache, paramHash) ==> lruIsStrs(g.cache, paramHash)
+//@   panics
+//@   # the token goes on top of the stack for exactly this hash; the tokens below it are kept
+//@   ensures lruHas(g.cache, paramHash) && lruIsStrs(g.cache, paramHash)
+//@   ensures len(lruStrs(g.cache, paramHash)) == ite(old(lruHas(g.cache, paramHash)), old(len(lruStrs(g.cache, paramHash))) + 1, 1)
+//@   ensures lruStrs(g.cache, paramHash)[len(lruStrs(g.cache, paramHash)) - 1] == uuid
+//@   ensures old(lruHas(g.cache, paramHash)) ==> forall i int :: 0 <= i && i < old(len(lruStrs(g.cache, paramHash))) ==> lruStrs(g.cache, paramHash)[i] == old(lruStrs(g.cache, paramHash)[i])
